@@ -4,7 +4,6 @@ import (
 	"fmt"
 	"go/token"
 	"go/types"
-	"sort"
 	"strings"
 
 	"golang.org/x/tools/go/ssa"
@@ -22,10 +21,13 @@ type cfgInfo struct {
 	FlagSet  *types.Named
 	Flag     *types.Named
 	ValueI   *types.Named
-	Parse    *ssa.Function
+	Parse    *ssa.Function // inlined view of (*FlagSet).Parse: its private helpers are seen in place
+	ParseSrc *ssa.Function
+	ViewFns  []*ssa.Function // the view, its closures and the views of callees it still calls
 	NewSet   *ssa.Function
 	Fns      []*ssa.Function
 	FromP    map[*ssa.Function]bool // reachable from Parse
+	JSONStep []*ssa.Function        // callees of Parse that reach the JSON decoder (kept as calls in the view)
 	problems []string
 }
 
@@ -40,6 +42,30 @@ func resolveConfig(p *core.Prog) *cfgInfo {
 	}
 	c.Fns = p.PkgFuncs("config")
 	c.FromP = reachableFrom(p, c.Parse)
+	c.ParseSrc = c.Parse
+	// the JSON step stays a call in the view: "after the JSON step" is a statement about that call, whether or not a
+	// document was found; everything else Parse calls in its package is expanded
+	var keep []*ssa.Function
+	for _, callee := range staticCalls(p).callees[c.ParseSrc] {
+		if !p.InModule(callee) {
+			continue
+		}
+		for f := range reachableFrom(p, callee) {
+			sx.Instrs(f, func(in ssa.Instruction) {
+				if cc, ok := in.(ssa.CallInstruction); ok {
+					if n := sx.CalleeName(cc); n == "encoding/json.Unmarshal" || n == "(*encoding/json.Decoder).Decode" {
+						keep = append(keep, callee)
+					}
+				}
+			})
+		}
+	}
+	c.JSONStep = keep
+	c.Parse = p.Inl(c.ParseSrc, keep...)
+	c.ViewFns = viewFuncs(p, c.Parse)
+	for _, f := range c.ViewFns {
+		c.FromP[f] = true
+	}
 	return c
 }
 
@@ -119,6 +145,12 @@ func fieldNilEdges(fn *ssa.Function, key string) (isNil, nonNil map[sx.Edge]bool
 	return
 }
 
+// afterJSONStep: every path of the Parse view from its entry to `at` passes the JSON step, where a path on which the
+// step found no document to apply counts as having passed it (there is nothing a later source could be overwritten by).
+func afterJSONStep(p *core.Prog, c *cfgInfo, at ssa.Instruction, jsonCut sx.Cut) bool {
+	return sx.MustPass(c.Parse, nil, at, jsonCut)
+}
+
 func runC09(p *core.Prog, r *core.Report) {
 	r.Rule("C09-R1", "application order: in everything Parse runs, a Value.Set happens only after the JSON step — except the config-path flag, from its command-line text only; defaults are applied only from NewFlagSet", 3)
 	r.Rule("C09-R2", "cli beats env, silence writes nothing: Set from the environment text is reachable only when the command-line text is nil; every Set is reachable only when its own source pointer is non-nil; ArgValue/EnvValue are assigned only addresses of fresh strings", 4)
@@ -150,26 +182,30 @@ func runC09(p *core.Prog, r *core.Report) {
 		}
 		return hit
 	}
-	var jsonStep ssa.Instruction
+	// the JSON step: in the view, the decoder call itself (or a module callee that was not expanded and reaches it)
+	jsonCut := sx.Cut{Instrs: map[ssa.Instruction]bool{}}
 	sx.Instrs(c.Parse, func(in ssa.Instruction) {
 		if cc, ok := in.(*ssa.Call); ok {
+			n := sx.CalleeName(cc)
+			if n == "encoding/json.Unmarshal" || n == "(*encoding/json.Decoder).Decode" {
+				jsonCut.Instrs[in] = true
+			}
 			if callee := sx.StaticCallee(cc); callee != nil && p.InModule(callee) && reachesJSON(callee) {
-				jsonStep = in
+				jsonCut.Instrs[in] = true
 			}
 		}
 	})
-	if jsonStep == nil {
+	if len(jsonCut.Instrs) == 0 {
 		r.Fail("C09-R1", "Parse: JSON step", p.FuncPos(c.Parse), "no call in Parse reaches encoding/json.Unmarshal")
 		return
 	}
+	// a Set behind the JSON step: the step either ran or was skipped because no document was given; both are "after"
+	// in the sense of the rule only if every path to the Set passed the point where the document is applied. A path on
+	// which no document exists passes no decoder call: those paths are cut at the carrier's "nothing found" exits below.
 
 	// ---- R1 / R2: every Set reachable from Parse
 	nSet := 0
-	var fl []*ssa.Function
-	for f := range c.FromP {
-		fl = append(fl, f)
-	}
-	sort.Slice(fl, func(i, j int) bool { return fl[i].String() < fl[j].String() })
+	fl := c.ViewFns
 	for _, fn := range fl {
 		sx.Instrs(fn, func(in ssa.Instruction) {
 			call, ok := in.(ssa.CallInstruction)
@@ -179,7 +215,7 @@ func runC09(p *core.Prog, r *core.Report) {
 			nSet++
 			src := setSource(call)
 			construct := fmt.Sprintf("Set #%d in %s (text from %s)", nSet, fnName(fn), src)
-			afterJSON := fn == c.Parse && sx.MustPass(c.Parse, nil, in, sx.Cut{Instrs: map[ssa.Instruction]bool{jsonStep: true}})
+			afterJSON := fn == c.Parse && afterJSONStep(p, c, in, jsonCut)
 			if fn != c.Parse {
 				// a helper: every call chain from Parse to it must start after the JSON step
 				var after func(f *ssa.Function, depth int) bool
@@ -187,23 +223,29 @@ func runC09(p *core.Prog, r *core.Report) {
 					if depth > 4 {
 						return false
 					}
-					sites := staticCalls(p).callers[f]
-					if len(sites) == 0 {
-						return false
-					}
-					for _, cs := range sites {
-						if !c.FromP[cs.Caller] {
-							continue
-						}
-						if cs.Caller == c.Parse {
-							if !sx.MustPass(c.Parse, nil, cs.Instr.(ssa.Instruction), sx.Cut{Instrs: map[ssa.Instruction]bool{jsonStep: true}}) {
-								return false
+					// call sites of f among the functions of the view
+					found := false
+					for _, g := range c.ViewFns {
+						okAll := true
+						sx.Instrs(g, func(i2 ssa.Instruction) {
+							cs, isCall := i2.(ssa.CallInstruction)
+							if !isCall || !sameFn(sx.StaticCallee(cs), f) {
+								return
 							}
-						} else if !after(cs.Caller, depth+1) {
+							found = true
+							if g == c.Parse {
+								if !afterJSONStep(p, c, i2, jsonCut) {
+									okAll = false
+								}
+							} else if !after(rootFn(g), depth+1) {
+								okAll = false
+							}
+						})
+						if !okAll {
 							return false
 						}
 					}
-					return true
+					return found
 				}
 				afterJSON = after(fn, 0)
 			}
@@ -231,16 +273,62 @@ func runC09(p *core.Prog, r *core.Report) {
 				_ = okEx
 				r.Check(okEx, "C09-R1", construct, p.Pos(in.Pos()), "the config-path flag, from its command-line text, before the JSON step (needed to find the file)", "a value is written into the user's struct before the JSON step (text from "+src+"): the JSON document — or a later, lower-priority source — overwrites it, so the higher-priority source loses")
 			}
-			// R2 guards (for sets driven by cli/env text)
-			switch src {
-			case "cli":
-				_, nonNil := fieldNilEdges(fn, "field:Flag.ArgValue")
-				r.Check(len(nonNil) > 0 && sx.MustPass(fn, nil, in, sx.Cut{Edges: nonNil}), "C09-R2", construct+": only when the cli text is present", p.Pos(in.Pos()), "behind ArgValue != nil", "Set from the command-line text is reachable when ArgValue is nil")
-			case "env":
-				_, nonNil := fieldNilEdges(fn, "field:Flag.EnvValue")
-				argNil, _ := fieldNilEdges(fn, "field:Flag.ArgValue")
-				r.Check(len(nonNil) > 0 && sx.MustPass(fn, nil, in, sx.Cut{Edges: nonNil}), "C09-R2", construct+": only when the env text is present", p.Pos(in.Pos()), "behind EnvValue != nil", "Set from the environment text is reachable when EnvValue is nil")
-				r.Check(len(argNil) > 0 && sx.MustPass(fn, nil, in, sx.Cut{Edges: argNil}), "C09-R2", construct+": only when the cli is silent", p.Pos(in.Pos()), "behind ArgValue == nil", "Set from the environment text is reachable although a command-line value exists: env would override cli")
+			// R2 guards (for sets driven by cli/env text). The text pointer may be chosen by a helper
+			// (`src := flag.textSource()`): then it is a phi of the two source pointers and each incoming edge is judged
+			// as its own case — the presence test may be on the merged pointer, the "cli is silent" test must hold on the
+			// edge that brings the environment pointer
+			type srcCase struct {
+				src string
+				at  ssa.Instruction
+			}
+			cases := []srcCase{{src, in}}
+			var merged *ssa.Phi
+			{
+				args := call.Common().Args
+				if ld, ok := args[len(args)-1].(*ssa.UnOp); ok && ld.Op == token.MUL {
+					if ph, ok := ld.X.(*ssa.Phi); ok {
+						merged = ph
+						cases = nil
+						for k, e := range ph.Edges {
+							org := sx.Origins(e)
+							cls := "other " + keys(org)
+							switch {
+							case org["field:Flag.ArgValue"] && len(org) == 1:
+								cls = "cli"
+							case org["field:Flag.EnvValue"] && len(org) == 1:
+								cls = "env"
+							}
+							pred := ph.Block().Preds[k]
+							cases = append(cases, srcCase{cls, pred.Instrs[len(pred.Instrs)-1]})
+						}
+					}
+				}
+			}
+			present := func(key string) map[sx.Edge]bool {
+				_, nonNil := fieldNilEdges(fn, key)
+				if merged != nil {
+					_, nn := sx.NilEdges(merged)
+					for e := range nn {
+						nonNil[e] = true
+					}
+				}
+				return nonNil
+			}
+			for _, cs := range cases {
+				switch cs.src {
+				case "cli":
+					nonNil := present("field:Flag.ArgValue")
+					r.Check(len(nonNil) > 0 && sx.MustPass(fn, nil, in, sx.Cut{Edges: nonNil}), "C09-R2", construct+": only when the cli text is present", p.Pos(in.Pos()), "behind ArgValue != nil", "Set from the command-line text is reachable when ArgValue is nil")
+				case "env":
+					nonNil := present("field:Flag.EnvValue")
+					argNil, _ := fieldNilEdges(fn, "field:Flag.ArgValue")
+					r.Check(len(nonNil) > 0 && sx.MustPass(fn, nil, in, sx.Cut{Edges: nonNil}), "C09-R2", construct+": only when the env text is present", p.Pos(in.Pos()), "behind EnvValue != nil", "Set from the environment text is reachable when EnvValue is nil")
+					r.Check(len(argNil) > 0 && sx.MustPass(fn, nil, cs.at, sx.Cut{Edges: argNil}), "C09-R2", construct+": only when the cli is silent", p.Pos(in.Pos()), "behind ArgValue == nil", "Set from the environment text is reachable although a command-line value exists: env would override cli")
+				default:
+					if merged != nil {
+						r.Fail("C09-R2", construct+": merged text source", p.Pos(in.Pos()), "the text given to Set is chosen among "+cs.src+": neither the command-line nor the environment text")
+					}
+				}
 			}
 		})
 	}
@@ -433,10 +521,8 @@ func runC09(p *core.Prog, r *core.Report) {
 	// ---- R5
 	{
 		var pj *ssa.Function
-		for f := range c.FromP {
-			if f != c.Parse && reachesJSON(f) && f.Signature.Recv() != nil {
-				pj = f
-			}
+		if len(c.JSONStep) > 0 {
+			pj = p.Inl(c.JSONStep[0]) // the JSON step with its own helpers expanded
 		}
 		if pj == nil {
 			r.Fail("C09-R5", "JSON carrier function", "-", "not found")
@@ -728,6 +814,24 @@ func checkSetSibling(p *core.Prog, r *core.Report, typeName string, set *ssa.Fun
 	}
 	for _, ret := range sx.Returns(set) {
 		sawParserErr := len(parsers) == 0
+		// a return that no parser call can reach (the early return of the empty-text path) has no parser error to carry
+		afterParser := false
+		for _, pc := range parsers {
+			if sx.ReachInstr(set, pc, ret, sx.Cut{}) {
+				afterParser = true
+			}
+		}
+		if !afterParser {
+			onlyNil := true
+			for _, lf := range leaves(ret.Results[0]) {
+				if !sx.IsNilConst(lf) {
+					onlyNil = false
+				}
+			}
+			if onlyNil {
+				continue
+			}
+		}
 		for _, lf := range leaves(ret.Results[0]) {
 			switch x := lf.(type) {
 			case *ssa.Const:
